@@ -780,7 +780,17 @@ func (wk *walker) stmt(s ast.Stmt, rest []ast.Stmt, cont []frame, st *pstate, b 
 		for _, sp := range gd.Specs {
 			vs := sp.(*ast.ValueSpec)
 			if len(vs.Values) == 0 {
-				continue // var x T
+				// var x T : an element temporary when T is a struct of the module and we are inside a loop
+				if wk.inLoop != nil && vs.Type != nil {
+					if t, ok := wk.w.resolveType(wk.pk, wk.file, vs.Type); ok {
+						if _, isArr := vs.Type.(*ast.ArrayType); !isArr {
+							for _, nm := range vs.Names {
+								wk.elemTemp(nm.Name, t, st)
+							}
+						}
+					}
+				}
+				continue
 			}
 			if len(vs.Values) != len(vs.Names) {
 				return actNext, wk.bad(s, "declaration with multi-value initialiser")
@@ -811,8 +821,42 @@ func (wk *walker) stmt(s ast.Stmt, rest []ast.Stmt, cont []frame, st *pstate, b 
 }
 
 // define handles x := expr / var x = expr for non-I/O right-hand sides
+func (wk *walker) elemTemp(name string, t typeRef, st *pstate) {
+	root := "$elem:" + name
+	st.vars[name] = []string{root}
+	st.types[name] = t
+	wk.inLoop.temps = append(wk.inLoop.temps, root)
+}
+
 func (wk *walker) define(name string, e ast.Expr, st *pstate, b *blk, at ast.Node) error {
+	if wk.inLoop != nil {
+		// x := new(T) / x := T{} / x := &T{}
+		var te ast.Expr
+		switch x := e.(type) {
+		case *ast.CallExpr:
+			if id, ok := x.Fun.(*ast.Ident); ok && id.Name == "new" && len(x.Args) == 1 {
+				te = x.Args[0]
+			}
+		case *ast.CompositeLit:
+			if len(x.Elts) == 0 {
+				te = x.Type
+			}
+		case *ast.UnaryExpr:
+			if cl, ok := x.X.(*ast.CompositeLit); ok && x.Op == token.AND && len(cl.Elts) == 0 {
+				te = cl.Type
+			}
+		}
+		if te != nil {
+			if t, ok := wk.w.resolveType(wk.pk, wk.file, te); ok {
+				wk.elemTemp(name, t, st)
+				return nil
+			}
+		}
+	}
 	if call, ok := e.(*ast.CallExpr); ok {
+		if ok, err := wk.makeCall(&ast.Ident{Name: name}, call, st); ok || err != nil {
+			return err
+		}
 		if wk.isPanicCtor(call) {
 			wk.pw[name] = true
 			return nil
@@ -920,6 +964,26 @@ func (wk *walker) fieldPath(e ast.Expr, st *pstate) ([]string, bool) {
 			return nil, false
 		}
 		return append(p, e.Sel.Name), true
+	case *ast.IndexExpr:
+		p, ok := wk.fieldPath(e.X, st)
+		iv, isId := e.Index.(*ast.Ident)
+		if !ok || !isId {
+			return nil, false
+		}
+		q, bound := st.idx[iv.Name]
+		if !bound {
+			return nil, false
+		}
+		if len(q) == 1 && strings.HasPrefix(q[0], "$idx:") {
+			if wk.inLoop != nil && wk.inLoop.path == nil {
+				wk.inLoop.path = append([]string{}, p...)
+			}
+			return append(p, "#"), true
+		}
+		if samePath(p, q) {
+			return append(p, "#"), true
+		}
+		return nil, false
 	}
 	return nil, false
 }
@@ -1648,7 +1712,7 @@ func (wk *walker) ioCall(call *ast.CallExpr, targets []ast.Expr, st *pstate, b *
 	}
 	x, ok := sel.X.(*ast.Ident)
 	if !ok {
-		return wk.nested(call, sel, st, b, at)
+		return wk.bad(at, "call %s", lxExprString(call.Fun))
 	}
 	name := sel.Sel.Name
 	args := call.Args
@@ -1705,7 +1769,7 @@ func (wk *walker) ioCall(call *ast.CallExpr, targets []ast.Expr, st *pstate, b *
 			}
 		}
 	default:
-		return wk.nested(call, sel, st, b, at)
+		return wk.bad(at, "call %s", lxExprString(call.Fun))
 	}
 
 	if wk.side == encSide {
@@ -1744,6 +1808,20 @@ func (wk *walker) ioCall(call *ast.CallExpr, targets []ast.Expr, st *pstate, b *
 					}
 					b.items = append(b.items, &item{kind: "count", f: &fx{kind: "path", path: p}, pos: at.Pos()})
 					return nil
+				}
+			}
+		}
+		if name == "String" {
+			if mc, ok := args[0].(*ast.CallExpr); ok && len(mc.Args) == 0 {
+				if ms, ok := mc.Fun.(*ast.SelectorExpr); ok && (ms.Sel.Name == "String" || ms.Sel.Name == "Undashed") {
+					if p, ok := wk.fieldPath(ms.X, st); ok && len(p) > 0 && p[len(p)-1] == "UUID" {
+						prim := "(PUUIDStr true)"
+						if ms.Sel.Name == "Undashed" {
+							prim = "(PUUIDStr false)"
+						}
+						b.items = append(b.items, &item{kind: "prim", f: &fx{kind: "path", path: p}, prim: prim, pos: at.Pos()})
+						return nil
+					}
 				}
 			}
 		}
@@ -1893,6 +1971,23 @@ func (wk *walker) assign(s *ast.AssignStmt, st *pstate, b *blk) error {
 			return wk.ioCall(call, s.Lhs, st, b, s)
 		}
 	}
+	// p.F, err = uuid.Parse(local)  where local was read by ReadStringMax(rd, 36 / 32)
+	if len(s.Rhs) == 1 && len(s.Lhs) == 2 && wk.side == decSide {
+		if call, ok := s.Rhs[0].(*ast.CallExpr); ok && lxExprString(call.Fun) == "uuid.Parse" && len(call.Args) == 1 {
+			id, _ := call.Args[0].(*ast.Ident)
+			p, okp := wk.fieldPath(s.Lhs[0], st)
+			if id != nil && okp && len(p) > 0 {
+				it := st.locals[id.Name]
+				if it != nil && it.f.kind == "local" && (it.prim == "(PString 36)" || it.prim == "(PString 32)") {
+					it.prim = map[string]string{"(PString 36)": "(PUUIDStr true)", "(PString 32)": "(PUUIDStr false)"}[it.prim]
+					it.f = &fx{kind: "path", path: p}
+					delete(st.locals, id.Name)
+					return nil
+				}
+			}
+			return wk.bad(s, "uuid.Parse of something that is not a 36/32 character string just read")
+		}
+	}
 	if len(s.Lhs) != len(s.Rhs) {
 		return wk.bad(s, "assignment shape")
 	}
@@ -1912,7 +2007,123 @@ func (wk *walker) isNestedCall(call *ast.CallExpr) bool {
 	return sel.Sel.Name == "Encode" || sel.Sel.Name == "Decode"
 }
 
+// storeElem: `slice = append(slice, elem)` / `slice[i] = elem` inside a decoding loop
+func (wk *walker) storeElem(s ast.Stmt, slice []string, elem ast.Expr, st *pstate) error {
+	if wk.inLoop == nil {
+		return wk.bad(s, "append outside a loop")
+	}
+	if wk.inLoop.path != nil && !samePath(wk.inLoop.path, slice) {
+		return wk.bad(s, "loop fills two slices")
+	}
+	wk.inLoop.path = append([]string{}, slice...)
+	cur := append(append([]string{}, slice...), "#")
+	bind := func(e ast.Expr, to []string) error {
+		for {
+			switch x := e.(type) {
+			case *ast.ParenExpr:
+				e = x.X
+				continue
+			case *ast.UnaryExpr:
+				if x.Op == token.AND || x.Op == token.MUL {
+					e = x.X
+					continue
+				}
+			case *ast.StarExpr:
+				e = x.X
+				continue
+			}
+			break
+		}
+		id, ok := e.(*ast.Ident)
+		if !ok {
+			return wk.bad(s, "element built from an expression outside the fragment")
+		}
+		if v, ok := st.vars[id.Name]; ok && len(v) == 1 && strings.HasPrefix(v[0], "$elem:") {
+			if len(to) != len(cur) {
+				return wk.bad(s, "element temporary stored in a sub-field")
+			}
+			return nil // replaced by the current element when the loop ends
+		}
+		it := st.locals[id.Name]
+		if it == nil || it.f == nil || it.f.kind != "local" {
+			return wk.bad(s, "element field filled from %s which holds no freshly read value on this path", id.Name)
+		}
+		it.f = &fx{kind: "path", path: to}
+		delete(st.locals, id.Name)
+		return nil
+	}
+	if cl, ok := elem.(*ast.CompositeLit); ok {
+		for _, el := range cl.Elts {
+			kv, ok := el.(*ast.KeyValueExpr)
+			if !ok {
+				return wk.bad(s, "positional composite literal")
+			}
+			k, ok := kv.Key.(*ast.Ident)
+			if !ok {
+				return wk.bad(s, "composite literal key")
+			}
+			if err := bind(kv.Value, append(append([]string{}, cur...), k.Name)); err != nil {
+				return err
+			}
+		}
+		return nil
+	}
+	return bind(elem, cur)
+}
+
+func (wk *walker) slicePathOf(e ast.Expr, st *pstate) ([]string, bool) {
+	if p, ok := wk.fieldPath(e, st); ok && len(p) > 0 {
+		return p, true
+	}
+	if id, ok := e.(*ast.Ident); ok && id.Name != "_" {
+		return []string{"$slice:" + id.Name}, true
+	}
+	return nil, false
+}
+
 func (wk *walker) assign1(s *ast.AssignStmt, lhs, rhs ast.Expr, st *pstate, b *blk) error {
+	if call, ok := rhs.(*ast.CallExpr); ok {
+		if ok, err := wk.makeCall(lhs, call, st); ok || err != nil {
+			return err
+		}
+		// x = append(x, elem)
+		if id, ok := call.Fun.(*ast.Ident); ok && id.Name == "append" && len(call.Args) == 2 && wk.side == decSide {
+			p1, ok1 := wk.slicePathOf(lhs, st)
+			p2, ok2 := wk.slicePathOf(call.Args[0], st)
+			if ok1 && ok2 && samePath(p1, p2) {
+				return wk.storeElem(s, p1, call.Args[1], st)
+			}
+			return wk.bad(s, "append to a different slice")
+		}
+	}
+	// x[i] = elem
+	if ix, ok := lhs.(*ast.IndexExpr); ok && wk.side == decSide {
+		if iv, ok := ix.Index.(*ast.Ident); ok {
+			if _, bound := st.idx[iv.Name]; bound {
+				if p, ok := wk.slicePathOf(ix.X, st); ok {
+					return wk.storeElem(s, p, rhs, st)
+				}
+			}
+		}
+	}
+	// p.F = localSlice (after the loop that filled it)
+	if rid, ok := rhs.(*ast.Ident); ok && wk.side == decSide {
+		alias := "$slice:" + rid.Name
+		used := false
+		for _, it := range b.items {
+			if it.kind == "rep" && it.f != nil && len(it.f.path) == 1 && it.f.path[0] == alias {
+				used = true
+			}
+		}
+		if used {
+			p, ok := wk.fieldPath(lhs, st)
+			if !ok || len(p) == 0 {
+				return wk.bad(s, "slice filled by a loop is stored in something that is not a field")
+			}
+			substPrefix(b, []string{alias}, p)
+			return nil
+		}
+	}
 	// local definitions
 	if id, ok := lhs.(*ast.Ident); ok {
 		if id.Name == "_" {
@@ -2403,7 +2614,6 @@ func (wk *walker) loop(s ast.Stmt, st *pstate, b *blk) error {
 	for _, tmp := range lw.inLoop.temps {
 		substPrefix(bb, []string{tmp}, append(append([]string{}, slicePath...), "#"))
 	}
-	substPrefix(bb, []string{"$idx"}, slicePath)
 	b.items = b.items[:len(b.items)-1]
 	opts := countItem.opts
 	if opts.cap == "" {
@@ -2486,7 +2696,32 @@ func lxExprString(e ast.Expr) string {
 // ---------- post-processing ----------
 
 // finish turns pending "rest"/"count" items into tails / errors and checks that nothing is unresolved
+func unresolved(f *fx) string {
+	for f != nil {
+		if f.kind == "madeslice" {
+			return "count of a pre-made slice that no loop consumed"
+		}
+		for _, c := range f.path {
+			if strings.HasPrefix(c, "$") {
+				return "placeholder " + c + " never bound to a field"
+			}
+		}
+		f = f.sub
+	}
+	return ""
+}
+
 func (wk *walker) finish(b *blk) error {
+	for _, it := range b.items {
+		if u := unresolved(it.f); u != "" {
+			return &opaque{reason: u + " @ " + wk.pk.where(it.pos), pos: it.pos}
+		}
+	}
+	if b.tail != nil {
+		if u := unresolved(b.tail.f); u != "" {
+			return &opaque{reason: u}
+		}
+	}
 	for i, it := range b.items {
 		switch it.kind {
 		case "rest":
